@@ -28,6 +28,8 @@ static double dy(Toks& tk)
 {
   long long m = tk.i();
   long long e = tk.i();
+  if (e == 9999)  // special values of a scripted error norm
+    return m == 0 ? std::numeric_limits<double>::quiet_NaN() : std::numeric_limits<double>::infinity();
   return std::ldexp((double)m, (int)e);
 }
 static std::vector<double> dys(Toks& tk, std::size_t n)
